@@ -1,42 +1,88 @@
 #!/usr/bin/env python3
-"""Apply every seeded patch to /repo in turn, run all claimed checks, revert; print which checks fire (beyond the unchanged-tree baseline)."""
-import json, os, subprocess, sys, glob
+"""Apply every seeded patch to a SCRATCH copy of /repo (never /repo itself), run all claimed property rules on it and record
+which rules fire beyond the unchanged-tree result.  Usage: seed_matrix.py [-j N] [seed ...]"""
+import json, os, subprocess, sys, glob, shutil, tempfile
+from concurrent.futures import ProcessPoolExecutor
 V = '/verif'
-m = json.load(open(V + '/MANIFEST.json'))
-props = [c['property_id'] for c in m['checks']]
-seeds = sorted(glob.glob(V + '/seeded/*/patch.diff'))
-only = sys.argv[1:]
-def run(p):
-    r = subprocess.run([V + '/check', p], capture_output=True, text=True)
-    return sorted(set(l.split('replay=')[1].split('/')[-1].replace('.json', '') for l in r.stdout.splitlines() if l.startswith('VIOLATION')))
-assert not subprocess.run(['git', '-C', '/repo', 'status', '--short', '--untracked-files=no'], capture_output=True, text=True).stdout.strip(), '/repo dirty'
-base = {p: run(p) for p in props}
-res = {}
-for s in seeds:
-    name = s.split('/')[-2]
-    if only and name not in only:
-        continue
-    a = subprocess.run(['git', '-C', '/repo', 'apply', '--3way', s], capture_output=True, text=True)
-    if a.returncode != 0:
-        a = subprocess.run(['git', '-C', '/repo', 'apply', s], capture_output=True, text=True)
-    if a.returncode != 0:
-        res[name] = 'PATCH-FAILS'
-        subprocess.run(['git', '-C', '/repo', 'checkout', '--', '.'])
-        subprocess.run(['git', '-C', '/repo', 'reset', '-q'])
-        print(name, 'PATCH-FAILS', a.stderr[:200])
-        continue
-    fired = {}
-    for p in props:
-        v = [x for x in run(p) if x not in base[p]]
-        if v:
-            fired[p] = v
-    subprocess.run(['git', '-C', '/repo', 'reset', '-q'])
-    subprocess.run(['git', '-C', '/repo', 'checkout', '--', '.'])
-    res[name] = fired
-    print(name, 'CAUGHT' if fired else 'missed', json.dumps(fired))
-try:
-    old = json.load(open(V + '/seeded/matrix.json'))
-except Exception:
-    old = {}
-old.update(res)
-json.dump(old, open(V + '/seeded/matrix.json', 'w'), indent=1, sort_keys=True)
+sys.path.insert(0, V + '/engine'); sys.path.insert(0, V)
+
+
+def props():
+    return [c['property_id'] for c in json.load(open(V + '/MANIFEST.json'))['checks']]
+
+
+def keys_on(repo_dir, target_dir):
+    import run, facts as factsmod, importlib
+    fp = run.extract(repo_dir, 'default', target_dir=target_dir)
+    f = factsmod.load(fp)
+    known, _ = run.load_known()
+    out = {}
+    for p in props():
+        mod = importlib.import_module('rules.%s' % p.lower())
+        ctx = run.Ctx(p, f, 'quick', 0)
+        try:
+            mod.run(ctx)
+        except Exception as e:
+            out[p] = ['ENGINE-ERROR %r' % (e,)]
+            continue
+        out[p] = sorted(o['key'] for o in ctx.obs if o['status'] == 'violation' and (p, o['key']) not in known)
+    if repo_dir != '/repo':
+        for x in (fp, fp + '.pickle'):
+            try:
+                os.remove(x)
+            except OSError:
+                pass
+    return out
+
+
+def one(args):
+    name, worker = args
+    import selftest
+    tdir = '/var/tmp/verif-matrix-target-%d' % worker
+    if not os.path.isdir(tdir):
+        subprocess.run(['cp', '-a', V + '/.cache/target', tdir])
+    d = selftest.scratch_copy('/repo')
+    try:
+        diff = open('%s/seeded/%s/patch.diff' % (V, name)).read()
+        p = subprocess.run(['patch', '-p1', '--no-backup-if-mismatch', '-s'], input=diff, text=True, cwd=d, stdout=subprocess.PIPE, stderr=subprocess.STDOUT)
+        if p.returncode != 0:
+            return name, 'PATCH-FAILS: ' + p.stdout[-150:]
+        return name, keys_on(d, tdir)
+    except Exception as e:
+        return name, 'ERROR %r' % (e,)
+    finally:
+        shutil.rmtree(d, ignore_errors=True)
+
+
+def main():
+    argv = sys.argv[1:]
+    jobs = 6
+    if argv[:1] == ['-j']:
+        jobs = int(argv[1]); argv = argv[2:]
+    seeds = sorted(os.path.basename(os.path.dirname(p)) for p in glob.glob(V + '/seeded/*/patch.diff'))
+    if argv:
+        seeds = [s for s in seeds if s in argv]
+    base = keys_on('/repo', V + '/.cache/target')
+    res = {}
+    with ProcessPoolExecutor(max_workers=jobs) as ex:
+        for name, r in ex.map(one, [(s, i % jobs) for i, s in enumerate(seeds)]):
+            if isinstance(r, str):
+                res[name] = r
+                print(name, r)
+                continue
+            fired = {p: [k for k in ks if k not in base.get(p, [])] for p, ks in r.items()}
+            fired = {p: ks for p, ks in fired.items() if ks}
+            res[name] = fired
+            print(name, 'CAUGHT' if fired else 'missed', json.dumps({p: [k[:90] for k in ks[:2]] for p, ks in fired.items()}))
+    try:
+        old = json.load(open(V + '/seeded/matrix.json'))
+    except Exception:
+        old = {}
+    old.update(res)
+    json.dump(old, open(V + '/seeded/matrix.json', 'w'), indent=1, sort_keys=True)
+    for w in range(jobs):
+        shutil.rmtree('/var/tmp/verif-matrix-target-%d' % w, ignore_errors=True)
+
+
+if __name__ == '__main__':
+    main()
